@@ -169,7 +169,10 @@ func c05Exec(r *vfRun) {
 	mapRoot := func(s string) string { return strings.ReplaceAll(s, root, "<root>") }
 	mapTwin := func(s string) string { return strings.ReplaceAll(s, twin, "<root>") }
 	var mismatch, msig string
-	explicitTimes := map[string]bool{}
+	// entries whose modification time was set explicitly, with the value: compared only as long as the twin still
+	// shows that value (a later create/remove inside a directory, a write or a truncate lets the kernel stamp "now",
+	// at two slightly different instants for the two trees)
+	explicitTimes := map[string]int64{}
 	nEffects := 0
 	snap := func(base string) string {
 		// names, types, modes, sizes, contents, link targets; mtimes only where set explicitly
@@ -187,7 +190,7 @@ func c05Exec(r *vfRun) {
 				b, _ := os.ReadFile(p)
 				l += fmt.Sprintf(" %d %x%s", fi.Size(), b, vfNlink(fi))
 			}
-			if explicitTimes[rel] {
+			if _, ok := explicitTimes[rel]; ok {
 				l += fmt.Sprintf(" mt=%d", fi.ModTime().Unix())
 			}
 			lines = append(lines, l)
@@ -320,7 +323,7 @@ func c05Exec(r *vfRun) {
 			if terr == nil {
 				// (the file the times were set on, following symlinks)
 				if real, e := filepath.EvalSymlinks(tp); e == nil {
-					explicitTimes[strings.TrimPrefix(real, twin)] = true
+					explicitTimes[strings.TrimPrefix(real, twin)] = mt.Unix()
 				}
 			}
 		case "truncate":
@@ -407,6 +410,11 @@ func c05Exec(r *vfRun) {
 		if cs.vals != ts.vals {
 			mismatch, msig = fmt.Sprintf("step %d %s(%q): the client returned %q, package os on an identical tree %q", i, op.K, cp, cs.vals, ts.vals), "value:"+op.K
 			return
+		}
+		for rel, val := range explicitTimes {
+			if fi, e := os.Lstat(twin + rel); e != nil || fi.ModTime().Unix() != val {
+				delete(explicitTimes, rel) // the kernel has re-stamped it since
+			}
 		}
 		if a, b := snap(root), snap(twin); a != b {
 			mismatch, msig = fmt.Sprintf("after step %d %s(%q,%q,%s) [client: %v] the served tree differs from the twin driven by package os:\n--- served:\n%s\n--- twin:\n%s", i, op.K, cp, cp2, op.S, cerr, a, b), "tree:"+op.K
